@@ -871,6 +871,75 @@ impl Operator<i64> for SVz {
     }
 }
 
+/// a probe that logs its id into a shared sequence, draws one word and fails at a scripted call
+pub struct SLog {
+    id: u8,
+    fail_on_call: Option<u32>,
+    calls: std::cell::Cell<u32>,
+    log: std::rc::Rc<RefCell<Vec<u8>>>,
+}
+impl Composable for SLog {}
+impl Operator<i64> for SLog {
+    type Output = i64;
+    type Error = SErr;
+    fn apply<R: Rng + ?Sized>(&self, x: i64, rng: &mut R) -> Result<i64, SErr> {
+        let n = self.calls.get();
+        self.calls.set(n + 1);
+        self.log.borrow_mut().push(self.id);
+        let _ = rng.next_u32();
+        if self.fail_on_call == Some(n) { Err(SErr(self.id)) } else { Ok(x + i64::from(self.id)) }
+    }
+}
+
+/// A statically typed chain *inside* a map: `make_vec.then_map(a.then(b))` (and `a.and(b)`, and a chain
+/// inside a chain) visits the elements one after the other, running the whole inner chain on each -
+/// a b a b a b, never a a a b b b - and stops at the first failure.
+fn chain_inside_map_case(kind: u8, failing: u8, call: u32) -> Result<bool, Fail> {
+    let mut rng = Counting::new(1);
+    let log = std::rc::Rc::new(RefCell::new(Vec::<u8>::new()));
+    let mk = |id: u8| SLog { id, fail_on_call: if id == failing { Some(call) } else { None }, calls: std::cell::Cell::new(0), log: log.clone() };
+    let (what, outcome, per_element): (&str, Result<usize, Vec<String>>, Vec<u8>) = match kind {
+        16 => ("make_vec.then_map(a.then(b))", SV.then_map(mk(1).then(mk(2))).apply(5, &mut rng).map(|v| v.len()).map_err(|e| std_chain(&e)), vec![1, 2]),
+        17 => ("make_vec.then_map(a.and(b))", SV.then_map(mk(1).and(mk(2))).apply(5, &mut rng).map(|v| v.len()).map_err(|e| std_chain(&e)), vec![1, 2]),
+        18 => ("make_vec.then_map(a.then(b).then(c))", SV.then_map(mk(1).then(mk(2)).then(mk(3))).apply(5, &mut rng).map(|v| v.len()).map_err(|e| std_chain(&e)), vec![1, 2, 3]),
+        _ => ("make_vec.then_map(a.then(b).and(c))", SV.then_map(mk(1).then(mk(2)).and(mk(3))).apply(5, &mut rng).map(|v| v.len()).map_err(|e| std_chain(&e)), vec![1, 2, 3]),
+    };
+    // the order the probes must have been called in: element by element, the inner chain in order, up to the failure
+    let mut want = vec![];
+    let mut seen = std::collections::BTreeMap::<u8, u32>::new();
+    let mut failed = false;
+    'outer: for _element in 0..3 {
+        for id in &per_element {
+            want.push(*id);
+            let n = seen.entry(*id).or_insert(0);
+            let this_call = *n;
+            *n += 1;
+            if *id == failing && this_call == call {
+                failed = true;
+                break 'outer;
+            }
+        }
+    }
+    let got = log.borrow().clone();
+    let words = rng.fingerprint().words;
+    ensure!(
+        got == want && words == want.len() as u64,
+        "compose/call-order",
+        "{what}, probe {failing} failing at its call {call}: the probes ran in the order {got:?} ({words} words drawn), expected {want:?}"
+    );
+    match outcome {
+        Err(chain) => {
+            ensure!(failed, "compose/spurious-error", "{what} with nothing failing reported {chain:?}");
+            ensure!(chain.last() == Some(&format!("static probe {failing} failed")), "compose/error-path", "{what}: the source() chain {chain:?} does not lead to probe {failing}");
+            Ok(true)
+        }
+        Ok(n) => {
+            ensure!(!failed, "compose/failure-swallowed", "{what}: probe {failing} failed at its call {call} but {n} results came back");
+            Ok(false)
+        }
+    }
+}
+
 /// Compositions over operators whose error type is zero-sized: a failure is still a failure - the
 /// pipeline stops there (calls and words drawn), reports an error that leads to the probe's, and does not panic.
 fn unit_error_case(kind: u8, failing: u8, call: u32) -> Result<bool, Fail> {
@@ -963,6 +1032,9 @@ fn judge_chains<E: StdError + miette::Diagnostic + 'static>(what: &str, e: &E, d
 }
 
 fn static_chain_case(kind: u8, failing: u8, call: u32) -> Result<bool, Fail> {
+    if kind >= 16 {
+        return chain_inside_map_case(kind, failing, call);
+    }
     if kind >= 10 {
         return unit_error_case(kind, failing, call);
     }
@@ -1067,7 +1139,7 @@ fn static_chain_case(kind: u8, failing: u8, call: u32) -> Result<bool, Fail> {
 
 fn static_error_chains(ctx: &mut Ctx) {
     let mut cases = vec![];
-    for kind in 0u8..16 {
+    for kind in 0u8..20 {
         for failing in 0u8..4 {
             for call in 0u32..3 {
                 cases.push((kind, failing, call));
@@ -1088,7 +1160,7 @@ fn static_error_chains(ctx: &mut Ctx) {
 }
 
 pub fn run(ctx: &mut Ctx) {
-    ctx.rule = "compositions: generated spec trees (depth <= 6) over then / and / map (array, tuple, Vec) / apply_n_times<0..3> / apply_twice().then_map / Identity / Constant around probe operators that log (call order, input seen, words drawn) and fail at a scripted call; every combinator node is the crate's real type (children boxed as the crate's Box<dyn DynOperator>), compared with a reference interpreter of the spec: same calls in the same order with the same inputs, same words at the same stream offsets, nothing after the first failure, final generator state, value, and the failing part recovered from the error value. static error chains: statically typed then / and / then_map (array, tuple, Vec) compositions of probes with an error type that is both std Error and miette Diagnostic - the source() and diagnostic_source() walks show the same levels down to the failing probe and name the failing element; the same combinators over probes whose error type is zero-sized (and the library's own EmptyPopulation under apply_twice): a failure stops the pipeline and comes back as an error. wrappers: Select / Mutate / Recombine (by value and by reference), GenomeExtractor, Identity, Constant and the usual select-twice -> extract -> recombine -> mutate -> score pipeline against the stages run by hand from an equal generator state. non-trivial = depth >= 2 and (a scripted failure or >= 2 random-drawing probes); distinct by JSON encoding".into();
+    ctx.rule = "compositions: generated spec trees (depth <= 6) over then / and / map (array, tuple, Vec) / apply_n_times<0..3> / apply_twice().then_map / Identity / Constant around probe operators that log (call order, input seen, words drawn) and fail at a scripted call; every combinator node is the crate's real type (children boxed as the crate's Box<dyn DynOperator>), compared with a reference interpreter of the spec: same calls in the same order with the same inputs, same words at the same stream offsets, nothing after the first failure, final generator state, value, and the failing part recovered from the error value. static error chains: statically typed then / and / then_map (array, tuple, Vec) compositions of probes with an error type that is both std Error and miette Diagnostic - the source() and diagnostic_source() walks show the same levels down to the failing probe and name the failing element; the same combinators over probes whose error type is zero-sized (and the library's own EmptyPopulation under apply_twice): a failure stops the pipeline and comes back as an error; statically typed chains (then, and, then.then) as the mapped operator of a Vec map: the elements are visited one after the other with the whole inner chain run on each (order of calls and of draws). wrappers: Select / Mutate / Recombine (by value and by reference), GenomeExtractor, Identity, Constant and the usual select-twice -> extract -> recombine -> mutate -> score pipeline against the stages run by hand from an equal generator state. non-trivial = depth >= 2 and (a scripted failure or >= 2 random-drawing probes); distinct by JSON encoding".into();
     ctx.assumptions.push("the failing part is read from the error's Debug/Display text (the error types' fields are private); if that text cannot be parsed the path is reported as unobservable, not as a violation".into());
     let (n, nw) = ctx.tier.pick((300_000u32, 100_000u32), (6_000_000, 1_000_000));
     ctx.run_prop("compositions", n, strategy, oracle);
